@@ -55,6 +55,9 @@ class TraceConc(X.ConcBase):
         for j, o in enumerate(rng.sample([[1, 2], {"a": 1}, {1, 2}, bytearray(b"ab"), [[]]], 2)):
             self.add_item(2000 + j, "C", "U", o)
             self.items_u.append({"n": 2000 + j, "s": "C", "k": "U"})
+        for j, k in ((2, 1), (3, 2), (4, 2)):          # caller-supplied keys whose hash fails at the first / second call
+            self.add_item(2000 + j, "B%d" % k, "U", X.FlakyKey(2000 + j, k))
+            self.items_u.append({"n": 2000 + j, "s": "B%d" % k, "k": "U"})
 
 
 EMPTY_OBS = {"lst": [], "bwd": [], "size": [], "head": [], "tail": [], "truth": [], "ch": [], "links": [], "val": [],
@@ -221,7 +224,7 @@ class Recorder(object):
             menu += ["onew"] * (3 if ns < 2 else 1 if ns < 4 else 0)
             if ns:
                 menu += ["oadd"] * 4 + ["oremove", "oremove", "oextend", "ohas", "ohas", "oquery", "ofirst", "olast", "obefore", "obefore",
-                                        "oafter", "oafter", "ocopy", "osetstate", "ounhash"]
+                                        "oafter", "oafter", "ocopy", "osetstate", "ounhash", "ounhash"]
         if prof in ("strs", "mixed"):
             menu += ["spair"] * 6 + ["sunary"] * 3 + ["sorted", "spickle"]
         for _ in range(30):
@@ -242,7 +245,7 @@ class Recorder(object):
         seq = st["lst"][l - 1] if l else []
         if kind == "lnew":
             n = self.count()
-            return C("lnew", l=nl + 1, vs=self.vsyms(n), f=self.fresh_ids(n))
+            return C("lnew", l=nl + 1, vs=self.vsyms(n), f=self.fresh_ids(n), k="boom" if rng.random() < 0.1 else "")
         if kind == "node":
             return C("node", v=self.vsym(), f=self.fresh_ids(1))
         if kind == "drop":
@@ -379,7 +382,7 @@ class Recorder(object):
             items = [item(0) for _ in range(n)]
             if rng.random() < 0.1:
                 items.insert(rng.randrange(len(items) + 1), _pick(rng, conc.items_u))
-            return C("onew", l=ns + 1, **{"as": items})
+            return C("onew", l=ns + 1, k="boom" if rng.random() < 0.1 else "", **{"as": items})
         if kind == "oadd":
             return C(_pick(rng, ["oadd", "oappend"]), l=s_, a=item(0.3))
         if kind == "oremove":
@@ -389,7 +392,7 @@ class Recorder(object):
             items = [item(0.3) for _ in range(n)]
             if rng.random() < 0.15:
                 items.insert(rng.randrange(len(items) + 1), _pick(rng, conc.items_u))
-            return C("oextend", l=s_, **{"as": items})
+            return C("oextend", l=s_, k="boom" if rng.random() < 0.2 else "", **{"as": items})
         if kind == "ohas":
             return C("ohas", l=s_, a=item(0.6))
         if kind == "oquery":
@@ -449,13 +452,13 @@ def record(seed, profile, nevents):
     return rec.events, rec
 
 
-def record_big(seed, kind):
+def record_big(seed, kind, size=None):
     """size stress: one or many large lists / sets, few events"""
     rec = Recorder(seed, "lists")
     rng = rec.rng
     C = X.call
     if kind == "biglist":
-        n = rng.choice([99, 100, 101, 255, 256, 257] + ([1000] if rng.random() < 0.3 else []))
+        n = size or rng.choice([99, 100, 101, 255, 256, 257] + ([1000] if rng.random() < 0.3 else []))
         rec.perform(C("lnew", l=1, vs=rec.vsyms(n), f=rec.fresh_ids(n)))
         for _ in range(rng.choice([6, 10])):
             seq = rec.state["lst"][0]
@@ -482,7 +485,7 @@ def record_big(seed, kind):
             else:
                 rec.perform(C(op, l=1))
     elif kind == "manylists":
-        k = rng.choice([9, 10, 11, 16, 17, 31, 32, 33, 40])
+        k = size or rng.choice([9, 10, 11, 16, 17, 31, 32, 33, 40])
         for i in range(k):
             n = rng.choice([0, 1, 2, 3])
             rec.perform(C("lnew", l=i + 1, vs=rec.vsyms(n), f=rec.fresh_ids(n)))
@@ -493,7 +496,7 @@ def record_big(seed, kind):
     elif kind == "bigset":
         rec.profile = "sets"
         conc = rec.conc
-        n = rng.choice([99, 100, 101, 255, 256, 257] + ([1000] if rng.random() < 0.3 else []))
+        n = size or rng.choice([99, 100, 101, 255, 256, 257] + ([1000] if rng.random() < 0.3 else []))
         items = []
         for j in range(n):
             t = "key-%04d%s" % (j, "-" + "z" * rng.choice([1, 15, 16, 17, 63, 64, 65, 255, 256, 257]) if j % 40 == 0 else "")
